@@ -17,7 +17,21 @@ class Prop:
     M_OBS = ("axes.kind", "vkind")
 
     def corpus(self):
-        return []
+        """minimised past failures (replays of repaired defects and witnesses of open findings) of this
+        property: they run first on every run"""
+        import glob, os
+        out = []
+        d = os.path.join(os.path.dirname(os.path.dirname(os.path.dirname(os.path.abspath(__file__)))), "findings")
+        for f in sorted(glob.glob(os.path.join(d, "*.json"))):
+            try:
+                j = json.load(open(f))
+            except Exception:
+                continue
+            if j.get("property") == self.id and isinstance(j.get("case"), dict) and j.get("corpus", True):
+                c = dict(j["case"])
+                c["_corpus"] = os.path.basename(f)
+                out.append(c)
+        return out
 
     def gen(self, rng, tier):
         return []
